@@ -18,7 +18,7 @@ TIERS = {
     'thorough': dict(shards=16, max_dnas=24, family_stride=1, random=190,
                      dnas=8, iter_max=60, corrupt=3, max_nodes=60, history=8,
                      family_history=3, grid_stride=1, wrong_shapes=4, flagged=0.15,
-                     refs=30, reuse=40, keys=24, timeout_s=3000,
+                     refs=20, reuse=30, keys=12, timeout_s=3000,
                      case_timeout_s=300),
 }
 RULE = ('case = one template description (gen/templates.py) with a `where` '
@@ -316,7 +316,9 @@ class Case:
     if self.has_ref:
       return 'value-reference'
     if self.reused:
-      return 'reused-placeholder'
+      # .../list-size: the number of choices is outside the size bounds of the
+      # list field (else: a candidate / range end is outside the field spec)
+      return 'reused-placeholder' + ('/list-size' if 'list-size' in self.misfit else '')
     if self.flags:
       return self.flags[0] + '-template'
     if self.bad_size:
